@@ -10,9 +10,9 @@ META = {'assumptions': []}
 KINDS = ['sidechain', 'backbone', 'coulomb']
 
 
-def mk_group(cls_name, res, num, atom_name, chain='A', q=-1, p=None):
+def mk_group(cls_name, res, num, atom_name, chain='A', q=-1, p=None, rec='atom'):
     import propka.group as G
-    a = H.atom(atom_name, res, num, chain, 0.0, 0.0, 0.0)
+    a = H.atom(atom_name, res, num, chain, 0.0, 0.0, 0.0, rec=rec)
     g = getattr(G, cls_name)(a)
     g.parameters = p or H.params()
     g.charge = q
@@ -187,6 +187,53 @@ def o_add_determinant(ctx):
                                          eq(g.determinants['coulomb'][1].value * k, v2)))
 
 
+def mk_pipeline_sum(name, args=()):
+    """at the end of the whole pipeline (incl. coupling effects and the removal
+    of penalised determinants) every group's pKa is the sum of what is THEN in
+    its lists -- in every conformation and in the average -- and the written
+    table shows exactly those determinants; structure under a symbolic grid shift"""
+    def body(ctx):
+        from . import micro as M
+        import propka.output as O
+        k = ctx.int('shift_thousandths', 0, 2509)
+        t = k / 1000.0 if ctx.native else k / 1000
+
+        def tr(a):
+            a.z = a.z + t
+        mol = M.run(M.text(name), args=list(args), transform=tr)
+        for cname, conf in mol.conformations.items():
+            for g in conf.groups:
+                if g.atom.cysteine_bridge:
+                    ctx.claim('bridged-99.99', eq(g.pka_value, 99.99))
+                else:
+                    ctx.claim('pka-is-sum-of-listed-contributions', eq(g.pka_value, total(g)),
+                              detail='%s in %s: pKa %r, sum %r' % (g.label, cname, g.pka_value, total(g)))
+        # the written table: per reported group, printed pKa and printed determinant values
+        text = O.get_determinant_section(mol, 'AVR', mol.version.parameters)
+        avr = {g.label: g for g in mol.conformations['AVR'].groups}
+        rows = {}
+        for ln in text.split('\n'):
+            lab = ln[:9]
+            if lab in avr and len(ln) > 100:
+                rows.setdefault(lab, []).append(ln)
+        for lab, lns in rows.items():
+            g = avr[lab]
+            if g.atom.cysteine_bridge:
+                continue
+            printed = 0.0
+            for ln in lns:
+                cols = ln[49:]
+                for i in range(3):
+                    cell = cols[i * 18:(i + 1) * 18]
+                    if 'XXX' not in cell:
+                        printed += float(cell[:8])
+            f0 = float(lns[0][10:16])
+            desolv = float(lns[0][27:33]) + float(lns[0][39:45])
+            ctx.claim('written-row-adds-up', abs(f0 - (g.model_pka + desolv + printed)) <= 0.005 * (3 + 3 * len(lns)) + 1e-9,
+                      detail='%s: printed pKa %.2f, model %.2f + desolvation %.2f + determinants %.2f' % (lab, f0, g.model_pka, desolv, printed))
+    return body
+
+
 def obligations(tier):
     G = 'propka/group.py:'
     obs = [
@@ -207,6 +254,17 @@ def obligations(tier):
         Obligation('O6-add-and-divide', o_add_determinant, code=[G + 'Group.__iadd__', G + 'Group.add_determinant', G + 'Group.__truediv__'],
                    bounds='2+1 determinants, symbolic values and divisor in [1,5]', claim_doc='merge by partner; division scales every field'),
     ]
+    fx = [('nterm_ASP_LYS', ()), ('pep8', ()), ('lig_MTX', ()), ('pair_GLU_ARG_TYR', ()), ('pair_CYS_CYS_bridge', ())]
+    if tier == 'thorough':
+        fx += [('pair_ASP_ARG', ()), ('pair_LYS_ASP', ()), ('pair_ASP_ASP', ('-d',)), ('lig_KNI', ()), ('cterm_PHE', ()), ('tri_HIS', ()), ('nterm_ASP_LYS', ('-d',))]
+    for name, args in fx:
+        obs.append(Obligation('O2-pipeline-end-state[%s%s]' % (name, ',' + ' '.join(args) if args else ''), mk_pipeline_sum(name, args),
+                              code=['propka/conformation_container.py:ConformationContainer.calculate_pka', 'propka/conformation_container.py:ConformationContainer.coupling_effects',
+                                    G + 'Group.remove_determinants', G + 'Group.calculate_total_pka', 'propka/molecular_container.py:MolecularContainer.average_of_conformations',
+                                    'propka/output.py:get_determinant_section'],
+                              bounds='micro-structure %s %s under a symbolic grid translation t in [0,2.509] along z; whole pipeline' % (name, ' '.join(args)),
+                              claim_doc='in every conformation and the average pKa == model + desolvation + the determinants then listed; written rows add up to the printed pKa',
+                              max_paths=5000, wall_s=170 if tier == 'quick' else 1200))
     if tier == 'thorough':
         obs.append(Obligation('O4-average-K3', mk_average(3), code=obs[1].code,
                               bounds='3 conformations', claim_doc=obs[1].claim_doc, max_paths=5000))
@@ -216,6 +274,6 @@ def obligations(tier):
 MANIFEST_ENTRY = {
     'level_note': ('Unit obligations on Group.calculate_total_pka, average_of_conformations (+clone/__iadd__/add_determinant/__truediv__/'
                    'find_group) for a group present in every conformation (absence is C08), and the row writers with format markers. '
-                   'Recomputation after penalised-determinant removal and after swaps is covered by C15 (swap/swap-back) and the '
-                   'micro-structure pipeline obligations of C04/C05 which re-check the sum on every group at the end of calculate_pka.'),
+                   'O2: end state of the whole pipeline on micro-structures that contain penalised (covalently coupled) groups, ligands and a disulfide, '
+                   'under a symbolic translation. Recomputation after swaps: C15.'),
 }
